@@ -84,6 +84,7 @@ func runC11(cw *caseWriter, tier string, seed uint64) {
 		c11n = nil
 	}
 	runC15fail(cw, tier, seed)
+	runC15big(cw, tier, seed)
 	runC103(cw, tier, seed, 0) // snapshots and compaction inside the composed cluster system (Model/ClusterCommit.v, cstep true)
 }
 
@@ -142,6 +143,14 @@ func c11monitor(cw *caseWriter) func(tag string, in, obs []uint64) {
 						}
 						if sn[0] > cur.sc[sApplied] || sn[0] < sn[2] {
 							cw.monitor(p, tag, "snapshot-index-outside-applied-history", "event %d: snapshot index %d, applied %d, configuration index %d", i, sn[0], cur.sc[sApplied], sn[2])
+						}
+						if sn[0] < cur.sc[sLastSnapIdx] {
+							// the FSM goroutine's index follows every restore: a snapshot can never be labelled below the snapshot the FSM was last restored from
+							cw.monitor(p, tag, "snapshot-labelled-below-the-snapshot-the-fsm-was-restored-from", "event %d: snapshot taken at index %d, the server's last snapshot (restored into the FSM) is at %d", i, sn[0], cur.sc[sLastSnapIdx])
+							if p == "C11" {
+								cw.monitor("C20", tag, "snapshot-labelled-below-the-snapshot-the-fsm-was-restored-from", "event %d: snapshot taken at index %d after a restore at %d", i, sn[0], cur.sc[sLastSnapIdx])
+								cw.monitor("C02", tag, "snapshot-labelled-below-the-snapshot-the-fsm-was-restored-from", "event %d: snapshot taken at index %d after a restore at %d", i, sn[0], cur.sc[sLastSnapIdx])
+							}
 						}
 						if int(sn[3]) != len(cur.fsm) {
 							cw.monitor(p, tag, "snapshot-content-is-not-the-fsm-state", "event %d: snapshot holds %d items, the FSM held %d", i, sn[3], len(cur.fsm))
